@@ -906,7 +906,8 @@ def oracle(c, o):
     stack = o["frames"][:-1]
     if not debug:
         stack_kept = [f for f in o["frames"] if not f["ignored"]]
-        expect = stack_kept[:-1] if verbose else []
+        # every frame that is not ignored is listed, except the frame of the snippet (the last one: where it was raised)
+        expect = [f for f in o["frames"][:-1] if not f["ignored"]] if verbose else []
         for f in o["frames"]:
             if f["ignored"] and any(x == (rel(f["file"]).strip(), f["lineno"], f["func"].strip()) for x in listed) and \
                     not any((g["file"], g["lineno"], g["func"]) == (f["file"], f["lineno"], f["func"]) for g in stack_kept):
@@ -916,6 +917,10 @@ def oracle(c, o):
     if verbose:
         for f in expect:
             if (rel(f["file"]).strip(), f["lineno"], f["func"].strip()) not in listed:
+                if not debug and o["frames"][-1]["ignored"] and f is expect[-1]:
+                    # known finding: the exception was raised INSIDE ignored code - the raising frame is filtered out, the
+                    # listing then drops the last frame it is given (meant to be the snippet's), i.e. the caller's
+                    return "caller-frame-lost-when-raised-in-ignored-code"
                 return "frame-missing-from-stack-trace"
     elif listed:
         return "stack-trace-at-normal-verbosity"
